@@ -379,6 +379,13 @@ func main() {
 		}
 		return
 	}
+	// the process runs in a zone WITH daylight saving (TIMESTAMP texts are local civil time at the INSTANT of the value,
+	// not at the moment of decoding); the zone-dependent expectations are computed from the time package for time.Local
+	if prop != "C12" {
+		if loc, err := time.LoadLocation("America/New_York"); err == nil {
+			time.Local = loc
+		}
+	}
 	start := time.Now()
 	drv, err := StartDriver()
 	if err != nil {
